@@ -3,7 +3,7 @@
    interpretation of the hash functions (md5 / sha-256 / sha-512-256 and their lower-hex printing are
    not ezk's code).  Definitions only. *)
 From Coq Require Import List NArith Bool.
-From EZK Require Import Lib.Bytes.
+From EZK Require Import Gen.Tables Lib.Bytes.
 Import ListNotations.
 Open Scope N_scope.
 
@@ -129,6 +129,15 @@ Record entry := mke { e_realm : bytes; e_nonce : bytes; e_proxy : bool; e_chal :
 Definition store := (list (bytes * creds) * option creds)%type.
 Fixpoint store_get (realm : bytes) (m : list (bytes * creds)) : option creds :=
   match m with [] => None | (r, c) :: t => if bytes_eqb r realm then Some c else store_get realm t end.
+(* CredentialStore::add_for_realm: HashMap::insert, the credentials given last for a realm are the stored ones.
+   [auth_store_add_replaces] (Gen.Tables) says whether the source has that form; an or_insert would keep the first. *)
+Fixpoint store_add (realm : bytes) (c : creds) (m : list (bytes * creds)) : list (bytes * creds) :=
+  match m with
+  | [] => [(realm, c)]
+  | (r, c0) :: t => if bytes_eqb r realm then (r, if auth_store_add_replaces then c else c0) :: t else (r, c0) :: store_add realm c t
+  end.
+Definition add_for_realm (realm : bytes) (c : creds) (s : store) : store := (store_add realm c (fst s), snd s).
+Definition set_default (c : creds) (s : store) : store := (fst s, Some c).
 Definition creds_for (s : store) (realm : bytes) : option creds :=
   match store_get realm (fst s) with Some c => Some c | None => snd s end.
 
